@@ -82,7 +82,9 @@ func FieldsFromStruct(t reflect.Type) TypesTable {
 				}
 			}
 
-			types[f.Name] = Tag{Type: f.Type}
+			if f.PkgPath == "" { // exported
+				types[f.Name] = Tag{Type: f.Type}
+			}
 		}
 	}
 
